@@ -1,5 +1,522 @@
 import BridgeVerif.Spec.Deal
+import BridgeVerif.Props.C15
 /-! Helper lemmas for C14 (deal encodings). -/
 namespace Bridge
+
+/-! ### single cards -/
+theorem mem_deck_of_ok {c : Card} (h : c.ok = true) : c ∈ Card.deck := C15.deck_complete.2 c h
+
+theorem deck_facts : ∀ c ∈ Card.deck, c.ok = true ∧ c.idx < 52 ∧ Card.ofIdx? c.idx = some c ∧
+    strToCard? (cardStr c) = some c ∧
+    isRankChar ((rankChar? c.rank).getD '?') = true ∧
+    ((rankOfChar? ((rankChar? c.rank).getD '?')).bind fun r => mkCard? r c.suit) = some c := by
+  decide +kernel
+
+theorem ofIdx_facts : ∀ n : Fin 52, ∃ c, Card.ofIdx? n.val = some c ∧ c.ok = true ∧ c.idx = n.val := by
+  decide +kernel
+
+theorem idx_inj {a b : Card} (ha : a.ok = true) (hb : b.ok = true) (h : a.idx = b.idx) : a = b :=
+  C15.card_notations_injective.2 a (mem_deck_of_ok ha) b (mem_deck_of_ok hb) h
+
+theorem not_rank_dot : isRankChar '.' = false := by decide
+theorem not_hand_dash : isHandChar '-' = false := by decide
+
+/-! ### sorting -/
+theorem insertDesc_perm (c : Card) (l : List Card) : (insertDesc c l).Perm (c :: l) := by
+  induction l with
+  | nil => simp [insertDesc]
+  | cons d r ih =>
+    simp only [insertDesc]
+    split
+    · exact List.Perm.refl _
+    · exact (List.Perm.cons d ih).trans (List.Perm.swap c d r)
+
+theorem sortDesc_perm (l : List Card) : (sortDesc l).Perm l := by
+  induction l with
+  | nil => exact List.Perm.refl _
+  | cons c r ih =>
+    exact (insertDesc_perm c _).trans (List.Perm.cons c ih)
+
+theorem insertAsc_perm (c : Card) (l : List Card) : (insertAsc c l).Perm (c :: l) := by
+  induction l with
+  | nil => simp [insertAsc]
+  | cons d r ih =>
+    simp only [insertAsc]
+    split
+    · exact List.Perm.refl _
+    · exact (List.Perm.cons d ih).trans (List.Perm.swap c d r)
+
+theorem sortAsc_perm (l : List Card) : (sortAsc l).Perm l := by
+  induction l with
+  | nil => exact List.Perm.refl _
+  | cons c r ih =>
+    exact (insertAsc_perm c _).trans (List.Perm.cons c ih)
+
+theorem insertDesc_sorted (c : Card) (l : List Card) (h : l.Pairwise fun a b => b.idx ≤ a.idx) :
+    (insertDesc c l).Pairwise fun a b => b.idx ≤ a.idx := by
+  induction l with
+  | nil => simp [insertDesc]
+  | cons d r ih =>
+    simp only [insertDesc]
+    rw [List.pairwise_cons] at h
+    split
+    · rename_i hle
+      refine List.pairwise_cons.2 ⟨?_, List.pairwise_cons.2 h⟩
+      intro b hb
+      rcases List.mem_cons.1 hb with rfl | hb
+      · exact hle
+      · exact Nat.le_trans (h.1 b hb) hle
+    · rename_i hnle
+      refine List.pairwise_cons.2 ⟨?_, ih h.2⟩
+      intro b hb
+      rcases List.mem_cons.1 ((insertDesc_perm c r).mem_iff.1 hb) with rfl | hb
+      · omega
+      · exact h.1 b hb
+
+theorem sortDesc_sorted (l : List Card) : (sortDesc l).Pairwise fun a b => b.idx ≤ a.idx := by
+  induction l with
+  | nil => exact List.Pairwise.nil
+  | cons c r ih => exact insertDesc_sorted c _ ih
+
+theorem insertAsc_sorted (c : Card) (l : List Card) (h : l.Pairwise fun a b => a.idx ≤ b.idx) :
+    (insertAsc c l).Pairwise fun a b => a.idx ≤ b.idx := by
+  induction l with
+  | nil => simp [insertAsc]
+  | cons d r ih =>
+    simp only [insertAsc]
+    rw [List.pairwise_cons] at h
+    split
+    · rename_i hle
+      refine List.pairwise_cons.2 ⟨?_, List.pairwise_cons.2 h⟩
+      intro b hb
+      rcases List.mem_cons.1 hb with rfl | hb
+      · exact hle
+      · exact Nat.le_trans hle (h.1 b hb)
+    · rename_i hnle
+      refine List.pairwise_cons.2 ⟨?_, ih h.2⟩
+      intro b hb
+      rcases List.mem_cons.1 ((insertAsc_perm c r).mem_iff.1 hb) with rfl | hb
+      · omega
+      · exact h.1 b hb
+
+theorem sortAsc_sorted (l : List Card) : (sortAsc l).Pairwise fun a b => a.idx ≤ b.idx := by
+  induction l with
+  | nil => exact List.Pairwise.nil
+  | cons c r ih => exact insertAsc_sorted c _ ih
+
+theorem pairwise_idx_ne (l : List Card) (hok : ∀ c ∈ l, c.ok = true) (hn : l.Nodup) :
+    l.Pairwise fun a b => a.idx ≠ b.idx := by
+  refine List.Pairwise.imp_of_mem ?_ hn
+  intro a b ha hb hne e
+  exact hne (idx_inj (hok a ha) (hok b hb) e)
+
+theorem sortAsc_strict (l : List Card) (hok : ∀ c ∈ l, c.ok = true) (hn : l.Nodup) :
+    (sortAsc l).Pairwise fun a b => a.idx < b.idx := by
+  have hp := sortAsc_perm l
+  have h1 := sortAsc_sorted l
+  have h2 := pairwise_idx_ne (sortAsc l) (fun c hc => hok c (hp.mem_iff.1 hc)) (hp.nodup_iff.2 hn)
+  exact (h1.and h2).imp (fun ⟨x, y⟩ => by omega)
+
+theorem sortDesc_strict (l : List Card) (hok : ∀ c ∈ l, c.ok = true) (hn : l.Nodup) :
+    (sortDesc l).Pairwise fun a b => b.idx < a.idx := by
+  have hp := sortDesc_perm l
+  have h1 := sortDesc_sorted l
+  have h2 := pairwise_idx_ne (sortDesc l) (fun c hc => hok c (hp.mem_iff.1 hc)) (hp.nodup_iff.2 hn)
+  exact (h1.and h2).imp (fun ⟨x, y⟩ => by omega)
+
+/-! ### dedup -/
+theorem dedup_of_nodup (l : List Card) (hn : l.Nodup) : dedup l = l := by
+  induction l with
+  | nil => rfl
+  | cons c r ih =>
+    rw [List.nodup_cons] at hn
+    have : dedup (c :: r) = if c ∈ dedup r then dedup r else c :: dedup r := rfl
+    rw [this, ih hn.2, if_neg hn.1]
+
+theorem mapM_strToCard (l : List Card) (hok : ∀ c ∈ l, c.ok = true) :
+    (l.map cardStr).mapM strToCard? = some l := by
+  induction l with
+  | nil => rfl
+  | cons c r ih =>
+    have h1 := (deck_facts c (mem_deck_of_ok (hok c List.mem_cons_self))).2.2.2.1
+    have h2 := ih fun x hx => hok x (List.mem_cons_of_mem _ hx)
+    simp [List.mapM_cons, h1, h2]
+
+theorem PartialDeal.nodup_hand {h : Hands} (hd : PartialDeal h) (p : Seat) : (h p).Nodup := by
+  have := hd.nodup
+  simp only [handsAll, List.nodup_append] at this
+  cases p <;> simp_all
+
+theorem PartialDeal.disjoint {h : Hands} (hd : PartialDeal h) {p q : Seat} (hpq : p ≠ q) {c : Card}
+    (hp : c ∈ h p) (hq : c ∈ h q) : False := by
+  have := hd.nodup
+  simp only [handsAll, List.nodup_append, List.mem_append] at this
+  cases p <;> cases q <;> first | exact hpq rfl | grind
+
+theorem toBinary_length (h : Hands) (p : Seat) : (toBinary h p).length = 52 := by simp [toBinary]
+
+theorem toBinary_bits (h : Hands) (p : Seat) : ∀ x ∈ toBinary h p, x = 0 ∨ x = 1 := by
+  intro x hx
+  simp only [toBinary, List.mem_map] at hx
+  obtain ⟨i, _, rfl⟩ := hx
+  split <;> simp
+
+theorem toBinary_getD (h : Hands) (p : Seat) (i : Nat) (hi : i < 52) :
+    (toBinary h p).getD i 0 = 1 ↔ ∃ c ∈ h p, c.idx = i := by
+  simp [toBinary, List.getD_eq_getElem?_getD, List.getElem?_map, List.getElem?_range hi]
+
+theorem nodup_filterMap_ofIdx (f : Nat → Option Card)
+    (hf : ∀ i c, f i = some c → c.idx = i) (l : List Nat) (hl : l.Nodup) : (l.filterMap f).Nodup := by
+  induction l with
+  | nil => simp
+  | cons a r ih =>
+    rw [List.nodup_cons] at hl
+    rw [List.filterMap_cons]
+    split
+    · exact ih hl.2
+    · rename_i c hc
+      refine List.nodup_cons.2 ⟨?_, ih hl.2⟩
+      intro hm
+      obtain ⟨j, hj, hjc⟩ := List.mem_filterMap.1 hm
+      have := hf _ _ hc
+      have := hf _ _ hjc
+      exact hl.1 (by simp_all)
+
+theorem ofIdx_some {i : Nat} {c : Card} (h : Card.ofIdx? i = some c) : c.ok = true ∧ c.idx = i := by
+  by_cases hi : i < 52
+  · obtain ⟨c', h1, h2, h3⟩ := ofIdx_facts ⟨i, hi⟩
+    simp only at h1 h3
+    rw [h1] at h
+    cases h
+    exact ⟨h2, h3⟩
+  · simp [Card.ofIdx?, show i > 51 by omega] at h
+
+theorem ofIdx_idx {c : Card} (h : c.ok = true) : c.idx < 52 ∧ Card.ofIdx? c.idx = some c :=
+  let f := deck_facts c (mem_deck_of_ok h); ⟨f.2.1, f.2.2.1⟩
+
+theorem mem_convertNpBinary (h : Hands) (hok : ∀ p, ∀ c ∈ h p, c.ok = true) (p : Seat) (c : Card) :
+    c ∈ convertNpBinary (toBinary h) p ↔ c ∈ h p := by
+  simp only [convertNpBinary, List.mem_filterMap, List.mem_range]
+  constructor
+  · rintro ⟨i, hi, hc⟩
+    split at hc
+    · rename_i h1
+      obtain ⟨c', hc', rfl⟩ := (toBinary_getD h p i hi).1 h1
+      have := (ofIdx_idx (hok p c' hc')).2
+      rw [this] at hc; cases hc; exact hc'
+    · cases hc
+  · intro hc
+    have := ofIdx_idx (hok p c hc)
+    refine ⟨c.idx, this.1, ?_⟩
+    rw [if_pos ((toBinary_getD h p _ this.1).2 ⟨c, hc, rfl⟩)]
+    exact this.2
+
+theorem convertNpBinary_nodup (b : Seat → List Nat) (p : Seat) : (convertNpBinary b p).Nodup := by
+  apply nodup_filterMap_ofIdx _ _ _ List.nodup_range
+  intro i c hc
+  split at hc
+  · exact (ofIdx_some hc).2
+  · cases hc
+
+theorem ite_some_iff {α : Type} {P : Prop} [Decidable P] {x : Option α} {c : α} :
+    (if P then x else none) = some c ↔ P ∧ x = some c := by split <;> simp_all
+
+theorem convertBinary_nodup (b : Seat → List Nat) (p : Seat) : (convertBinary b p).Nodup := by
+  apply nodup_filterMap_ofIdx _ _ _ List.nodup_range
+  intro i c hc
+  exact (ofIdx_some (ite_some_iff.1 hc).2).2
+
+theorem mem_convertBinary (h : Hands) (hd : PartialDeal h) (p : Seat) (c : Card) :
+    c ∈ convertBinary (toBinary h) p ↔ c ∈ h p := by
+  simp only [convertBinary, List.mem_filterMap, List.mem_range, ite_some_iff]
+  have key : ∀ q i, i < 52 → (toBinary h q).getD i 0 = 1 → Card.ofIdx? i = some c → c ∈ h q := by
+    intro q i hi h1 hc
+    obtain ⟨c', hc', rfl⟩ := (toBinary_getD h q i hi).1 h1
+    have := (ofIdx_idx (hd.ok q c' hc')).2
+    rw [this] at hc; cases hc; exact hc'
+  constructor
+  · rintro ⟨i, hi, h1, hc⟩
+    split at h1
+    · cases h1; exact key _ i hi ‹_› hc
+    · split at h1
+      · cases h1; exact key _ i hi ‹_› hc
+      · split at h1
+        · cases h1; exact key _ i hi ‹_› hc
+        · split at h1
+          · cases h1; exact key _ i hi ‹_› hc
+          · cases h1
+  · intro hc
+    have hi := ofIdx_idx (hd.ok p c hc)
+    refine ⟨c.idx, hi.1, ?_, hi.2⟩
+    have hp : (toBinary h p).getD c.idx 0 = 1 := (toBinary_getD h p _ hi.1).2 ⟨c, hc, rfl⟩
+    have hq : ∀ q, q ≠ p → ¬ (toBinary h q).getD c.idx 0 = 1 := by
+      intro q hqp h1
+      exact hd.disjoint hqp (key q c.idx hi.1 h1 hi.2) hc
+    cases p
+    · rw [if_pos hp]
+    · rw [if_neg (hq .N (by decide)), if_pos hp]
+    · rw [if_neg (hq .N (by decide)), if_neg (hq .E (by decide)), if_pos hp]
+    · rw [if_neg (hq .N (by decide)), if_neg (hq .E (by decide)), if_neg (hq .S (by decide)), if_pos hp]
+
+theorem freshPack_perm_deck : freshPack.Perm Card.deck := by decide +kernel
+theorem deck_nodup : Card.deck.Nodup := by decide +kernel
+theorem deck_ok : ∀ c ∈ Card.deck, c.ok = true := fun c hc => (deck_facts c hc).1
+
+theorem handsAll_dealOfList (l : List Card) (hl : l.length = 52) : handsAll (dealOfList l) = l := by
+  simp only [handsAll, dealOfList]
+  have e1 : (l.drop 39).take 13 = l.drop 39 := List.take_of_length_le (by simp; omega)
+  have e2 : l.drop 39 = (l.drop 26).drop 13 := by simp
+  have e3 : l.drop 26 = (l.drop 13).drop 13 := by simp
+  rw [e1, e2, List.append_assoc, List.append_assoc, List.take_append_drop, e3, List.take_append_drop,
+    List.take_append_drop]
+
+theorem dealOfList_length (l : List Card) (hl : l.length = 52) (p : Seat) : (dealOfList l p).length = 13 := by
+  cases p <;> simp [dealOfList] <;> omega
+
+theorem dealOfList_partial (l : List Card) (hp : l.Perm freshPack) :
+    PartialDeal (dealOfList l) ∧ (∀ p, (dealOfList l p).length = 13) ∧
+    (handsAll (dealOfList l)).Perm Card.deck := by
+  have hpd := hp.trans freshPack_perm_deck
+  have hl : l.length = 52 := hpd.length_eq.trans C15.deck_complete.1
+  have hall := handsAll_dealOfList l hl
+  refine ⟨⟨?_, ?_, ?_⟩, dealOfList_length l hl, by rw [hall]; exact hpd⟩
+  · rw [hall]; exact hpd.nodup_iff.2 deck_nodup
+  · intro p c hc
+    apply deck_ok c (hpd.mem_iff.1 _)
+    rw [← hall]
+    simp only [handsAll, List.mem_append]
+    cases p <;> simp [hc]
+  · intro p; exact Or.inr (dealOfList_length l hl p)
+
+/-- the PBN holding of one suit -/
+def suitGroup (hand : List Card) (su : Suit) : List Char :=
+  ((sortDesc hand).filter fun c => decide (c.suit = su)).map fun c => (rankChar? c.rank).getD '?'
+
+theorem handToPbn_13 (hand : List Card) (hl : hand.length = 13) :
+    handToPbn? hand = some (suitGroup hand .S ++ '.' :: (suitGroup hand .H ++ '.' :: (suitGroup hand .D ++ '.' :: suitGroup hand .C))) := by
+  simp [handToPbn?, hl, pbnSuits, List.intercalate, suitGroup]
+
+theorem count_filter_ite (p : Card → Bool) (a : Card) (l : List Card) :
+    (l.filter p).count a = if p a then l.count a else 0 := by
+  split
+  · rename_i h; exact List.count_filter h
+  · rename_i h
+    apply List.count_eq_zero.2
+    intro hm
+    exact h (List.mem_filter.1 hm).2
+
+theorem suit_partition (l : List Card) (h : ∀ c ∈ l, c.ok = true) :
+    (l.filter (fun c => decide (c.suit = .S)) ++ (l.filter (fun c => decide (c.suit = .H)) ++
+      (l.filter (fun c => decide (c.suit = .D)) ++ l.filter (fun c => decide (c.suit = .C))))).Perm l := by
+  rw [List.perm_iff_count]
+  intro a
+  simp only [List.count_append, count_filter_ite]
+  by_cases ha : a ∈ l
+  · have := h a ha
+    obtain ⟨r, s⟩ := a
+    cases s <;> simp_all [Card.ok]
+  · have := List.count_eq_zero.2 ha
+    simp [this]
+
+theorem filterMap_eq_self {α : Type} (f : α → Option α) (l : List α) (h : ∀ c ∈ l, f c = some c) :
+    l.filterMap f = l := by
+  induction l with
+  | nil => rfl
+  | cons c r ih =>
+    rw [List.filterMap_cons, h c List.mem_cons_self, ih fun x hx => h x (List.mem_cons_of_mem _ hx)]
+
+theorem suitGroup_rank (hand : List Card) (hok : ∀ c ∈ hand, c.ok = true) (su : Suit) :
+    ∀ ch ∈ suitGroup hand su, isRankChar ch = true := by
+  intro ch hch
+  simp only [suitGroup, List.mem_map, List.mem_filter] at hch
+  obtain ⟨c, ⟨hc, _⟩, rfl⟩ := hch
+  exact (deck_facts c (mem_deck_of_ok (hok c ((sortDesc_perm hand).mem_iff.1 hc)))).2.2.2.2.1
+
+theorem suitGroup_parse (hand : List Card) (hok : ∀ c ∈ hand, c.ok = true) (su : Suit) :
+    ((suitGroup hand su).filterMap fun ch => (rankOfChar? ch).bind fun r => mkCard? r su) =
+      (sortDesc hand).filter fun c => decide (c.suit = su) := by
+  rw [suitGroup, List.filterMap_map]
+  apply filterMap_eq_self
+  intro c hc
+  obtain ⟨hc, hs⟩ := List.mem_filter.1 hc
+  have := (deck_facts c (mem_deck_of_ok (hok c ((sortDesc_perm hand).mem_iff.1 hc)))).2.2.2.2.2
+  simp only [decide_eq_true_eq] at hs
+  subst hs
+  exact this
+
+theorem suitGroup_length (hand : List Card) (hok : ∀ c ∈ hand, c.ok = true) :
+    (suitGroup hand .S).length + (suitGroup hand .H).length + (suitGroup hand .D).length +
+      (suitGroup hand .C).length = hand.length := by
+  have := (suit_partition (sortDesc hand) fun c hc => hok c ((sortDesc_perm hand).mem_iff.1 hc)).length_eq
+  rw [(sortDesc_perm hand).length_eq] at this
+  simp only [List.length_append] at this
+  simp only [suitGroup, List.length_map]
+  omega
+
+theorem tryLen_hit (cont : List Char → Option (List (List Char))) (g rest : List Char) (sep : Char)
+    (gs : List (List Char)) (hc : cont rest = some gs) :
+    tryLen cont (g ++ sep :: rest) g.length = some (g :: gs) := by
+  cases g with
+  | nil => simp [tryLen, hc]
+  | cons a g' =>
+    have hd : (a :: g' ++ sep :: rest).drop (g'.length + 1) = sep :: rest :=
+      List.drop_left' (by simp)
+    have ht : (a :: g' ++ sep :: rest).take (g'.length + 1) = a :: g' :=
+      List.take_left' (by simp)
+    simp only [List.length_cons, tryLen, hd, hc, ht]
+
+theorem takeWhile_group (g rest : List Char) (hg : ∀ ch ∈ g, isRankChar ch = true) :
+    (g ++ '.' :: rest).takeWhile isRankChar = g := by
+  rw [List.takeWhile_append_of_pos hg, List.takeWhile_cons, not_rank_dot]; simp
+
+theorem takeWhile_last (g : List Char) (hg : ∀ ch ∈ g, isRankChar ch = true) :
+    g.takeWhile isRankChar = g := by
+  have := List.takeWhile_append_of_pos (l₂ := []) hg
+  simpa using this
+
+theorem matchGroups_succ (k : Nat) (g rest : List Char) (gs : List (List Char))
+    (hg : ∀ ch ∈ g, isRankChar ch = true) (h : matchGroups k rest = some gs) :
+    matchGroups (k + 1) (g ++ '.' :: rest) = some (g :: gs) := by
+  rw [matchGroups, takeWhile_group g rest hg]
+  exact tryLen_hit _ g rest '.' gs h
+
+theorem matchGroups_field (g1 g2 g3 g4 : List Char)
+    (h1 : ∀ ch ∈ g1, isRankChar ch = true) (h2 : ∀ ch ∈ g2, isRankChar ch = true)
+    (h3 : ∀ ch ∈ g3, isRankChar ch = true) (h4 : ∀ ch ∈ g4, isRankChar ch = true) :
+    matchGroups 3 (g1 ++ '.' :: (g2 ++ '.' :: (g3 ++ '.' :: g4))) = some [g1, g2, g3, g4] := by
+  apply matchGroups_succ _ _ _ _ h1
+  apply matchGroups_succ _ _ _ _ h2
+  apply matchGroups_succ _ _ _ _ h3
+  rw [matchGroups, takeWhile_last g4 h4]
+
+/-- what `takeHandField?` recognises -/
+def IsField (f : List Char) : Prop := f = ['-'] ∨ (f.length = 16 ∧ ∀ ch ∈ f, isHandChar ch = true)
+
+theorem takeHandField_field (f rest : List Char) (hf : IsField f) :
+    takeHandField? (f ++ rest) = some (f, rest) := by
+  rcases hf with rfl | ⟨hl, hc⟩
+  · have : ¬ ((List.take 16 (['-'] ++ rest)).length = 16 ∧ (List.take 16 (['-'] ++ rest)).all isHandChar = true) := by
+      rintro ⟨_, h⟩
+      simp [not_hand_dash] at h
+    unfold takeHandField?
+    rw [if_neg this]
+    rfl
+  · have ht : (f ++ rest).take 16 = f := List.take_left' hl
+    have hd : (f ++ rest).drop 16 = rest := List.drop_left' hl
+    unfold takeHandField?
+    rw [ht, hd, if_pos]
+    exact ⟨hl, List.all_eq_true.2 hc⟩
+
+/-- the PBN field of one hand -/
+def handField (hand : List Card) : List Char :=
+  if hand.length = 0 then ['-']
+  else suitGroup hand .S ++ '.' :: (suitGroup hand .H ++ '.' :: (suitGroup hand .D ++ '.' :: suitGroup hand .C))
+
+theorem handToPbn_field (hand : List Card) (hs : hand.length = 0 ∨ hand.length = 13) :
+    handToPbn? hand = some (handField hand) := by
+  rcases hs with hs | hs
+  · simp [handToPbn?, handField, hs]
+  · rw [handToPbn_13 hand hs, handField, if_neg (by omega)]
+
+theorem handField_length (hand : List Card) (hok : ∀ c ∈ hand, c.ok = true) (hs : hand.length = 13) :
+    (handField hand).length = 16 := by
+  have := suitGroup_length hand hok
+  rw [handField, if_neg (by omega)]
+  simp only [List.length_append, List.length_cons]
+  omega
+
+theorem handField_isField (hand : List Card) (hok : ∀ c ∈ hand, c.ok = true)
+    (hs : hand.length = 0 ∨ hand.length = 13) : IsField (handField hand) := by
+  rcases hs with hs | hs
+  · left; simp [handField, hs]
+  · right
+    refine ⟨handField_length hand hok hs, ?_⟩
+    rw [handField, if_neg (by omega)]
+    have := suitGroup_rank hand hok
+    intro ch hch
+    simp only [List.mem_append, List.mem_cons] at hch
+    simp only [isHandChar, Bool.or_eq_true, beq_iff_eq]
+    rcases hch with h | rfl | h | rfl | h | rfl | h
+    all_goals first | exact Or.inr rfl | exact Or.inl (this _ _ h)
+
+theorem handParser_field (hand : List Card) (hok : ∀ c ∈ hand, c.ok = true) (hn : hand.Nodup)
+    (hs : hand.length = 0 ∨ hand.length = 13) :
+    ∃ l, handParser? (handField hand) = some l ∧ l.Perm hand := by
+  rcases hs with hs | hs
+  · refine ⟨[], by simp [handField, hs, handParser?], ?_⟩
+    rw [List.length_eq_zero_iff.1 hs]
+  · have hne : handField hand ≠ ['-'] := by
+      intro e
+      have := handField_length hand hok hs
+      rw [e] at this; simp at this
+    have hm := matchGroups_field _ _ _ _ (suitGroup_rank hand hok .S) (suitGroup_rank hand hok .H)
+      (suitGroup_rank hand hok .D) (suitGroup_rank hand hok .C)
+    have hsok : ∀ c ∈ sortDesc hand, c.ok = true := fun c hc => hok c ((sortDesc_perm hand).mem_iff.1 hc)
+    have hperm := (suit_partition (sortDesc hand) hsok).trans (sortDesc_perm hand)
+    refine ⟨_, ?_, hperm⟩
+    unfold handParser?
+    rw [if_neg hne]
+    have : handField hand = suitGroup hand .S ++ '.' :: (suitGroup hand .H ++ '.' :: (suitGroup hand .D ++ '.' :: suitGroup hand .C)) := by
+      rw [handField, if_neg (by omega)]
+    rw [this, hm]
+    simp only [suitGroup_parse hand hok, List.append_assoc]
+    rw [dedup_of_nodup _ (hperm.nodup_iff.2 hn)]
+
+theorem toPbn_eq (h : Hands) (hs : ∀ p, (h p).length = 0 ∨ (h p).length = 13) (first : Seat) :
+    toPbn? h first = some (first.name ++ [':'] ++ handField (h first) ++ [' '] ++ handField (h first.left) ++
+      [' '] ++ handField (h first.left.left) ++ [' '] ++ handField (h first.left.left.left)) := by
+  simp [toPbn?, seatsFrom, List.mapM_cons, handToPbn_field _ (hs _)]
+
+theorem convertPbn_fields (first : Seat) (a b c d : List Char) (c0 c1 c2 c3 : List Card)
+    (ha : IsField a) (hb : IsField b) (hc : IsField c) (hd : IsField d)
+    (pa : handParser? a = some c0) (pb : handParser? b = some c1)
+    (pc : handParser? c = some c2) (pd : handParser? d = some c3) :
+    convertPbn? (first.name ++ [':'] ++ a ++ [' '] ++ b ++ [' '] ++ c ++ [' '] ++ d) =
+      some fun p => if p = first then c0 else if p = first.left then c1
+                  else if p = first.left.left then c2 else c3 := by
+  have e : first.name ++ [':'] ++ a ++ [' '] ++ b ++ [' '] ++ c ++ [' '] ++ d =
+      (first.name.headD 'N') :: ':' :: (a ++ ' ' :: (b ++ ' ' :: (c ++ ' ' :: (d ++ [])))) := by
+    cases first <;> simp [Seat.name]
+  have hn : seatOfName? [first.name.headD 'N'] = some first := by cases first <;> rfl
+  rw [e]
+  unfold convertPbn?
+  simp only [hn, takeHandField_field _ _ ha, takeHandField_field _ _ hb, takeHandField_field _ _ hc,
+    takeHandField_field _ _ hd, pa, pb, pc, pd]
+
+theorem suitRanksDesc_map (hand : List Card) (su : Suit) :
+    (suitRanksDesc hand su).map (fun r => (rankChar? r).getD '?') = suitGroup hand su := by
+  simp [suitRanksDesc, suitGroup, List.map_map, Function.comp_def]
+
+theorem strictDesc_of_pairwise (l : List Nat) (h : l.Pairwise fun a b => b < a) : StrictDesc l := by
+  induction l with
+  | nil => trivial
+  | cons a r ih =>
+    cases r with
+    | nil => trivial
+    | cons b r' =>
+      rw [List.pairwise_cons] at h
+      exact ⟨h.1 b List.mem_cons_self, ih h.2⟩
+
+theorem suitRanksDesc_strict (hand : List Card) (hok : ∀ c ∈ hand, c.ok = true) (hn : hand.Nodup)
+    (su : Suit) : StrictDesc (suitRanksDesc hand su) := by
+  apply strictDesc_of_pairwise
+  rw [suitRanksDesc, List.pairwise_map]
+  refine List.Pairwise.imp_of_mem ?_ ((sortDesc_strict hand hok hn).filter _)
+  intro a b ha hb hlt
+  have h1 := (List.mem_filter.1 ha).2
+  have h2 := (List.mem_filter.1 hb).2
+  simp only [decide_eq_true_eq] at h1 h2
+  simp only [Card.idx, h1, h2] at hlt
+  omega
+
+theorem mem_suitRanksDesc (hand : List Card) (su : Suit) (r : Nat) :
+    r ∈ suitRanksDesc hand su ↔ (⟨r, su⟩ : Card) ∈ hand := by
+  simp only [suitRanksDesc, List.mem_map, List.mem_filter, (sortDesc_perm hand).mem_iff,
+    decide_eq_true_eq]
+  constructor
+  · rintro ⟨⟨r', s'⟩, ⟨hc, rfl⟩, rfl⟩
+    exact hc
+  · intro hc
+    exact ⟨⟨r, su⟩, ⟨hc, rfl⟩, rfl⟩
 
 end Bridge
